@@ -1,0 +1,19 @@
+//go:build verif
+
+package logic
+
+import "github.com/q191201771/lal/pkg/rtsp"
+
+// VerifRtspPullSession returns the RTSP relay-pull session attached to the group of the stream
+// (nil if none), for PullSession.VerifIsClosed.  Companion of VerifGroupView.RtmpPullSession.
+func (sm *ServerManager) VerifRtspPullSession(streamName string) *rtsp.PullSession {
+	sm.mutex.Lock()
+	defer sm.mutex.Unlock()
+	g := sm.getGroup("", streamName)
+	if g == nil {
+		return nil
+	}
+	g.mutex.Lock()
+	defer g.mutex.Unlock()
+	return g.pullProxy.rtspSession
+}
